@@ -14,6 +14,11 @@ class Unsupported(Exception):
     pass
 
 
+class _Return(Exception):
+    def __init__(self, value):
+        self.value = value
+
+
 NONE = ("none",)
 
 
@@ -59,9 +64,11 @@ def mn(a, b):
 
 
 class Interp:
-    def __init__(self, helpers=None, inputs=None):
+    def __init__(self, helpers=None, inputs=None, lookup=None):
         self.helpers = helpers or {}      # method name -> fn facts (params, body)
         self.inputs = inputs or {}        # rendered expression text -> abstract value (symbolic inputs chosen by the rule)
+        self.lookup = lookup              # (name, use node) -> defining expression node | None: locals of an enclosing function, constants
+        self._busy = set()
 
     # ---- expressions -------------------------------------------------------------------------------------------
     def ev(self, e, env):
@@ -82,6 +89,14 @@ class Interp:
                 return NONE
             if p in env:
                 return env[p]
+            if self.lookup is not None and p not in self._busy:
+                d = self.lookup(p, e)
+                if d is not None:
+                    self._busy.add(p)
+                    try:
+                        return self.fn_value(d, env) if d.get("k") == "closure" else self.ev(d, env)
+                    finally:
+                        self._busy.discard(p)
             raise Unsupported("unknown name " + p)
         if k == "field":
             base = self.ev(e["e"], env)
@@ -90,6 +105,14 @@ class Interp:
             raise Unsupported("field " + show(e))
         if k == "tuple":
             return ("tuple", tuple(self.ev(x, env) for x in e["e"]))
+        if k == "struct":
+            base = self.ev(e["rest"], env) if e.get("rest") is not None and isinstance(e.get("rest"), dict) else {}
+            out = dict(base) if isinstance(base, dict) else {}
+            for fname, fv in e["f"]:
+                out[fname] = self.ev(fv, env)
+            return out
+        if k == "return":
+            raise _Return(self.ev(e["e"], env) if e.get("e") is not None else None)
         if k == "ref" or (k == "un" and e["op"] == "*"):
             return self.ev(e["e"], env)
         if k == "call":
@@ -193,7 +216,10 @@ class Interp:
             if len(params) != len(args):
                 raise Unsupported("helper arity " + m)
             henv = dict(zip(params, args))
-            return self.block(h["body"], henv)[0]
+            try:
+                return self.block(h["body"], henv)[0]
+            except _Return as r:
+                return r.value
         raise Unsupported("method ." + m)
 
     # ---- patterns ----------------------------------------------------------------------------------------------
@@ -293,7 +319,12 @@ class Interp:
                     continue
                 v = self.fn_value(st["init"], env) if st["init"].get("k") == "closure" else self.ev(st["init"], env)
                 if not self.bind(st["pat"], v, env):
-                    raise Unsupported("refutable let")
+                    if st.get("else") is None:
+                        raise Unsupported("refutable let")
+                    self.block(st["else"], dict(env))          # `let P = e else { diverges }`
+                    raise Unsupported("let-else branch does not diverge")
+            elif k == "return":
+                raise _Return(self.ev(st["e"], env) if st.get("e") is not None else None)
             elif k == "assign":
                 self.assign(st["lhs"], self.ev(st["rhs"], env), env)
             elif k in ("if", "match"):
